@@ -92,3 +92,84 @@ def backward(ctx):
             setattr(SL, k, v)
     rec["out"] = out
     return rec
+
+
+# ---- autograd-history model (C07.e) -----------------------------------------------------------------------------------
+# In the real driver the Hamiltonian pieces handed to SCF.apply are not independent leaves: the two-centre integrals w and
+# the core Hamiltonian M are functions of the one-centre integrals (rho0 from g_ss, rho1 from h_sp, rho2 from
+# (g_pp - g_p2)/2 enter the local-frame integrals from which both are built).  ctx.saved_tensors returns the *same* tensors, history included, and
+# torch.autograd.grad(out, inputs, grad_outputs=u) follows every path from `out` to each requested input, also the paths that
+# run through another requested input.  The model below gives SymTensors a `hist` list [(other, d self/d other)] and makes
+# the autograd stub follow it, so whether the code differentiates w.r.t. history-free copies becomes observable.
+
+HIST_ROOTS = ["gss", "gpp", "gp2", "hsp"]
+
+
+def attach_history(inp, requires):
+    """w and M both descend from the differentiable one-centre integrals through the local-frame integrals `ri`
+    (w by rotation, M through the core-attraction blocks e1b/e2a); neither is computed from the other.
+    Symbolic Jacobian coefficients h_w_<root>, h_M_<root>."""
+    coef = {}
+    for t in ("w", "M"):
+        inp[t].hist = []
+        for r in HIST_ROOTS:
+            if r in requires:
+                coef[(t, r)] = z3.Real("h_%s_%s" % (t, r))
+                inp[t].hist.append((inp[r], coef[(t, r)]))
+    return coef
+
+
+def _path(s, t, seen=()):
+    """sum over history paths of d s / d t (t identified by object identity)"""
+    tot = z3.RealVal(0)
+    for o, c in s.hist or []:
+        if o is t:
+            tot = tot + c
+        elif id(o) not in seen:
+            tot = tot + c * _path(o, t, seen + (id(s),))
+    return tot
+
+
+def backward_with_history(ctx):
+    """real SCF.backward with an autograd stub that follows the history model; returns (slots, partial symbols a_<name>, u)"""
+    from seqm.seqm_functions import scf_loop as SL
+
+    saved = {k: getattr(SL, k) for k in ("fock_restricted", "sym_eig_trunc1", "sym_eig_trunc1d", "agrad", "fixed_point_anderson", "fixed_point_picard")}
+    Pout = SymTensor(np.full((1, 8, 8), z3.Real("Pout"), dtype=object))
+    part = {n: z3.Real("a_%s" % n) for n in NAMES}
+    passed = {}
+
+    def fock(nmol, molsize, Pin, M, maskd, mask, idxi, idxj, w, W, gss, gpp, gsp, gp2, hsp, themethod, *a):
+        passed.update(M=M, w=w, W=W, gss=gss, gpp=gpp, gsp=gsp, gp2=gp2, hsp=hsp)
+        return SymTensor(np.full((1, 8, 8), z3.Real("F"), dtype=object))
+
+    def agrad(out, inputs, grad_outputs=None, **k):
+        u = grad_outputs.a.reshape(-1)[0]
+        if not isinstance(inputs, (list, tuple)):
+            return (SymTensor(np.full(inputs.a.shape, z3.RealVal(0), dtype=object)),)  # dPout/dPin: contraction part, not under test
+        res = []
+        for t in inputs:
+            g = z3.RealVal(0)
+            for name, s in passed.items():
+                if s is t:
+                    g = g + part[name]
+                elif isinstance(s, SymTensor):
+                    g = g + part[name] * _path(s, t)
+            res.append(SymTensor(np.full(t.a.shape, u * g, dtype=object)))
+        return tuple(res)
+
+    fp = lambda fun, u0, tol, *a, **k: fun(u0)
+    SL.fock_restricted = fock
+    SL.sym_eig_trunc1 = lambda F, *a: (None, Pout)
+    SL.sym_eig_trunc1d = lambda F, *a: (None, Pout)
+    SL.agrad = agrad
+    SL.fixed_point_anderson = fp
+    SL.fixed_point_picard = fp
+    try:
+        gradP = SymTensor(np.full((1, 8, 8), z3.Real("gP"), dtype=object))
+        with S.symbolic_factories():
+            out = SL.SCF.backward(ctx, gradP, None)
+    finally:
+        for k, v in saved.items():
+            setattr(SL, k, v)
+    return out, part, z3.Real("gP")
